@@ -13,7 +13,7 @@ from . import _text
 
 ID = 'C02'
 LEVEL = 'exploration'
-RULE = ('cases = hostile mix (12% preceded by an abandoned strict parse / unexhausted tokenizer / error listing of the previous text) + whole files + a nesting ladder (13 nesting constructs x depths up to 100) on cycled '
+RULE = ('cases = hostile mix (12% preceded by an abandoned strict parse / unexhausted tokenizer / error listing of the previous text / strict eval_input parse / parse aborted by the recursion limit) + whole files + a nesting ladder (13 nesting constructs x depths up to 100) on cycled '
         'versions; judged by an exception observer and a shape contract on Grammar.parse (parentless file_input, last '
         'child the only end marker, no empty interior node, str value/prefix) and a logical step budget on '
         'sys.monitoring LINE events in parso.python.tokenize / parso.parser / parso.python.parser '
@@ -237,9 +237,18 @@ def run_shard(spec, ctx):
                     for _ in range(hrng.randint(0, 6)):
                         next(it2)
                     del it2
+                elif k < .86:
+                    # a documented strict call with another start rule on the shared grammar object
+                    ctx.count('prior_calls_with_another_start_symbol')
+                    g.parse(hrng.choice(['1 + 1', 'f(x)', 'lambda: 0', prev.split('\n')[0]]), error_recovery=False, start_symbol='eval_input')
+                elif k < .93:
+                    # a parse that CPython's recursion limit aborts half-way, with an unexpected indent open (outside the property
+                    # itself, but what it leaves behind must not reach the next call)
+                    ctx.count('prior_calls_aborted_by_the_recursion_limit')
+                    g.parse(hrng.choice([' ' + '-' * 3000 + '1 1', 'if x:\n        y\n   ' + '(' * 3000, '  ' + 'not ' * 3000 + 'x\n']))
                 else:
                     list(g.iter_errors(g.parse(prev)))
-            except Exception:
+            except (Exception, RecursionError):
                 pass
         prev = code
         _state['events'] = 0       # logical steps of the judged parse only
